@@ -4,9 +4,11 @@ package trk16
 
 import (
 	"context"
+	"encoding/json"
 	"errors"
 	"fmt"
 	"net"
+	"sort"
 	"strings"
 	"sync/atomic"
 	"testing"
@@ -21,7 +23,7 @@ import (
 
 // ---- answers the explorer can give to one Announce call
 
-type annAnswer int
+type annAnswer int8
 
 const (
 	ansOK            annAnswer = iota // reply, interval 30 min
@@ -166,7 +168,7 @@ func runAnnouncerSeq(seq []annAnswer, needMore bool) (out annOutcome) {
 		}
 	}
 
-	prev := annAnswer(-1)
+	prev := annAnswer(-1) // none
 	var prevEnd time.Time
 	stuck := false
 	for i := 0; i <= len(seq); i++ {
@@ -245,8 +247,131 @@ func runAnnouncerSeq(seq []annAnswer, needMore bool) (out annOutcome) {
 	return out
 }
 
+// forEachAnnSeq enumerates the answer sequences in canonical (depth-first) order; hang only in last position.
+func forEachAnnSeq(maxLen int, f func(idx int, seq []annAnswer)) int {
+	idx := 0
+	var rec func(cur []annAnswer)
+	rec = func(cur []annAnswer) {
+		if len(cur) > 0 {
+			f(idx, cur)
+			idx++
+		}
+		if len(cur) == maxLen || (len(cur) > 0 && cur[len(cur)-1] == ansHang) {
+			return
+		}
+		for a := annAnswer(0); a < numAnswers; a++ {
+			rec(append(cur, a))
+		}
+	}
+	rec(make([]annAnswer, 0, maxLen+1))
+	return idx
+}
+
+type annJob struct {
+	Lo, Hi int // sequence index range [Lo,Hi) in canonical order
+	MaxLen int
+}
+
+type annViol struct {
+	Desc     string `json:"desc"`
+	Answers  string `json:"answers"`
+	NeedMore bool   `json:"need_more"`
+	Len      int    `json:"len"`
+	Count    int64  `json:"count"`
+}
+
+type annAgg struct {
+	Retries   [numAnswers]int64   `json:"retries"`
+	Stuck     int64               `json:"stuck"`
+	Calls     int64               `json:"calls"`
+	NoPeriod  int64               `json:"no_period"`
+	Execs     int64               `json:"execs"`
+	Viol      map[string]*annViol `json:"viol"`
+	Samples   []string            `json:"samples"`
+	CloseFail string              `json:"close_fail,omitempty"`
+}
+
+func (ag *annAgg) addViol(key string, v annViol) {
+	if ag.Viol == nil {
+		ag.Viol = map[string]*annViol{}
+	}
+	old, ok := ag.Viol[key]
+	if !ok {
+		c := v
+		ag.Viol[key] = &c
+		return
+	}
+	n := old.Count + v.Count
+	if v.Len < old.Len || (v.Len == old.Len && !v.NeedMore && old.NeedMore) {
+		c := v
+		ag.Viol[key] = &c
+		old = ag.Viol[key]
+	}
+	old.Count = n
+}
+
+func annWorker(t *testing.T, job core.Job) json.RawMessage {
+	var j annJob
+	if err := json.Unmarshal(job.Data, &j); err != nil {
+		core.HarnessError("bad job: %v", err)
+	}
+	ag := &annAgg{}
+	total := j.Hi - j.Lo
+	forEachAnnSeq(j.MaxLen, func(idx int, cur []annAnswer) {
+		if idx < j.Lo || idx >= j.Hi {
+			return
+		}
+		seq := append([]annAnswer{}, cur...)
+		for _, needMore := range []bool{false, true} {
+			var out annOutcome
+			var pan string
+			synctest.Test(t, func(t *testing.T) {
+				defer func() {
+					if p := recover(); p != nil {
+						pan = fmt.Sprintf("%v at %s", p, topRepoFrame())
+					}
+				}()
+				out = runAnnouncerSeq(seq, needMore)
+				if !out.closeOK {
+					// the bubble cannot be left: report and end this worker process
+					ag.addViol("C16.announcer.close-blocks", annViol{Desc: fmt.Sprintf("answers [%s] (needMorePeers=%v): Close did not return / Run did not end", seqString(seq), needMore),
+						Answers: seqString(seq), NeedMore: needMore, Len: len(seq), Count: 1})
+					ag.CloseFail = seqString(seq)
+					b, _ := json.Marshal(ag)
+					core.ExitCrash(b)
+				}
+			})
+			ag.Execs++
+			if pan != "" {
+				out.violKey = "C16.announcer.panic." + frameKey(strings.SplitN(pan, " at ", 2)[1])
+				out.violDesc = fmt.Sprintf("answers [%s] (needMorePeers=%v): panic %s", seqString(seq), needMore, pan)
+			}
+			if out.violKey != "" {
+				ag.Stuck++
+				ag.addViol(out.violKey, annViol{Desc: out.violDesc, Answers: seqString(seq), NeedMore: needMore, Len: len(seq), Count: 1})
+			}
+			for a := range ag.Retries {
+				ag.Retries[a] += out.retries[a]
+			}
+			if out.noPeriod {
+				ag.NoPeriod++
+			}
+			ag.Calls += out.calls
+			if !needMore && (idx-j.Lo) == total/2 {
+				ag.Samples = append(ag.Samples, fmt.Sprintf("[%s] -> announce calls=%d violation=%q", seqString(seq), out.calls, out.violKey))
+			}
+		}
+	})
+	b, _ := json.Marshal(ag)
+	return b
+}
+
 func TestC16Announcer(t *testing.T) {
 	logger.Disable()
+	if core.IsWorker() {
+		core.WorkerMain(func(job core.Job) json.RawMessage { return annWorker(t, job) })
+		return
+	}
 	rep := core.NewReport("C16", "announcer", "exploration")
 	maxLen := 5
 	if core.Thorough() {
@@ -262,93 +387,68 @@ func TestC16Announcer(t *testing.T) {
 		"the back-off jitter is drawn by cenkalti/backoff from math/rand/v2 (not pinned): the oracle uses only the documented upper bound, so counts do not depend on the draws",
 		"the completed event and Stats polling during the run are not part of the alphabet",
 	}
-	// enumerate sequences: hang only in last position
-	var seqs [][]annAnswer
-	var rec func(cur []annAnswer)
-	rec = func(cur []annAnswer) {
-		if len(cur) > 0 {
-			seqs = append(seqs, append([]annAnswer{}, cur...))
-		}
-		if len(cur) == maxLen || (len(cur) > 0 && cur[len(cur)-1] == ansHang) {
-			return
-		}
-		for a := annAnswer(0); a < numAnswers; a++ {
-			rec(append(cur, a))
+	nseq := forEachAnnSeq(maxLen, func(int, []annAnswer) {})
+	nJobs := core.Parallelism() * 12
+	var jobs []core.Job
+	for k := 0; k < nJobs; k++ {
+		lo, hi := nseq*k/nJobs, nseq*(k+1)/nJobs
+		if hi > lo {
+			b, _ := json.Marshal(annJob{Lo: lo, Hi: hi, MaxLen: maxLen})
+			jobs = append(jobs, core.Job{ID: k, Data: b})
 		}
 	}
-	// simplest first: by length
-	rec(nil)
-	byLen := make([][]annAnswer, 0, len(seqs))
-	for l := 1; l <= maxLen; l++ {
-		for _, s := range seqs {
-			if len(s) == l {
-				byLen = append(byLen, s)
+	results := core.RunSharded("TestC16Announcer", jobs, 10*time.Minute)
+	sort.Slice(results, func(a, b int) bool { return results[a].ID < results[b].ID })
+	total := &annAgg{}
+	for _, r := range results {
+		if r.Hang {
+			rep.Cap(fmt.Sprintf("announcer shard %d exceeded its wall budget", r.ID))
+			continue
+		}
+		var ag annAgg
+		if len(r.Data) > 0 {
+			if err := json.Unmarshal(r.Data, &ag); err != nil {
+				core.HarnessError("bad shard result: %v", err)
+			}
+		}
+		if r.Crash != "" {
+			rep.Violate("C16.announcer.crash", "announcer shard crashed (panic in a goroutine of the code under test?):\n"+r.Crash, nil)
+			continue
+		}
+		if ag.CloseFail != "" {
+			rep.Cap("a shard stopped early after Close blocked (answers " + ag.CloseFail + ")")
+		}
+		for a := range total.Retries {
+			total.Retries[a] += ag.Retries[a]
+		}
+		total.Stuck += ag.Stuck
+		total.Calls += ag.Calls
+		total.NoPeriod += ag.NoPeriod
+		total.Execs += ag.Execs
+		for k, v := range ag.Viol {
+			total.addViol(k, *v)
+		}
+		for _, s := range ag.Samples {
+			if r.ID%(nJobs/8+1) == 0 {
+				rep.Sample(10, s)
 			}
 		}
 	}
-	seqs = byLen
-	type job struct {
-		seq      []annAnswer
-		needMore bool
+	var keys []string
+	for k := range total.Viol {
+		keys = append(keys, k)
 	}
-	var jobs []job
-	for _, s := range seqs {
-		jobs = append(jobs, job{s, false}, job{s, true})
-	}
-	outs := make([]annOutcome, len(jobs))
-	W := core.Parallelism()
-	t.Run("workers", func(t *testing.T) {
-		for w := 0; w < W; w++ {
-			w := w
-			t.Run(fmt.Sprint(w), func(t *testing.T) {
-				t.Parallel()
-				for i := w; i < len(jobs); i += W {
-					j := jobs[i]
-					var out annOutcome
-					var pan string
-					synctest.Test(t, func(t *testing.T) {
-						defer func() {
-							if p := recover(); p != nil {
-								pan = fmt.Sprintf("%v at %s", p, topRepoFrame())
-							}
-						}()
-						out = runAnnouncerSeq(j.seq, j.needMore)
-						if !out.closeOK {
-							rep.Violate("C16.announcer.close-blocks", fmt.Sprintf("answers [%s] (needMorePeers=%v): Close did not return / Run did not end", seqString(j.seq), j.needMore),
-								map[string]any{"answers": seqString(j.seq), "needMorePeers": j.needMore})
-							poisoned(rep, "announcer Close blocked; the bubble cannot be left")
-						}
-					})
-					if pan != "" {
-						rep.Violate("C16.announcer.panic."+frameKey(strings.SplitN(pan, " at ", 2)[1]), fmt.Sprintf("answers [%s]: panic %s", seqString(j.seq), pan), seqString(j.seq))
-					}
-					outs[i] = out
-				}
-			})
-		}
-	})
-	var retries [numAnswers]int64
-	var stuck, calls, noPeriod int64
-	for i, o := range outs {
-		j := jobs[i]
-		rep.CountDistinct(fmt.Sprintf("%s|%v", seqString(j.seq), j.needMore))
-		if o.violKey != "" {
-			stuck++
-			rep.Violate(o.violKey, o.violDesc, map[string]any{"answers": seqString(j.seq), "needMorePeers": j.needMore})
-		}
-		for a := range retries {
-			retries[a] += o.retries[a]
-		}
-		if o.noPeriod {
-			noPeriod++
-		}
-		calls += o.calls
-		if i%(len(outs)/6+1) == 0 {
-			rep.Sample(8, fmt.Sprintf("[%s] needMore=%v -> calls=%d viol=%q", seqString(j.seq), j.needMore, o.calls, o.violKey))
+	sort.Strings(keys)
+	for _, k := range keys {
+		v := total.Viol[k]
+		for c := int64(0); c < v.Count; c++ {
+			rep.Violate(k, v.Desc, map[string]any{"answers": v.Answers, "needMorePeers": v.NeedMore})
 		}
 	}
-	rep.Evaluations = int64(len(jobs))
-	rep.Extra["sequences"] = int64(len(seqs))
+	retries, stuck, calls, noPeriod := total.Retries, total.Stuck, total.Calls, total.NoPeriod
+	rep.Distinct = total.Execs
+	rep.Evaluations = total.Execs
+	rep.Extra["sequences"] = int64(nseq)
 	rep.Extra["announce_calls_observed"] = calls
 	for a := annAnswer(0); a < numAnswers; a++ {
 		rep.Extra["followed_by_next_announce_after_"+a.String()] = retries[a]
